@@ -507,14 +507,93 @@ def check_case(t, v, idx):
     return out
 
 
+def poison():
+    """Failing operations between the cases: an encode that raises part-way
+    (directly and through an IR save) must leave nothing behind that could
+    leak into the next table.  Returns number of failing calls that raised."""
+    br = bridge()
+    g = br.g
+    raised = 0
+    for val, tname in (([7, 300], "sequence<uint8_t>"),
+                       ([1, "two"], "sequence<int64_t>"),
+                       ({"k": [1, None]}, "mapping<string,sequence<uint8_t>>"),
+                       ([1, 2], "sequence<nosuchcodec>")):
+        try:
+            br.ser.encode(io.BytesIO(), val, tname)
+        except Exception:  # noqa
+            raised += 1
+        ir = g.IR(uuid=uuid.UUID(int=0x2FFE))
+        ir.aux_data["bad"] = g.AuxData(val, tname)
+        try:
+            ir.save_protobuf_file(io.BytesIO())
+        except Exception:  # noqa
+            raised += 1
+    return raised
+
+
+def ir_path_case(t, v, idx):
+    """the value as an AuxData table of an IR and of a module, through
+    save_protobuf_file / load_protobuf_file / .data"""
+    br = bridge()
+    g = br.g
+    out = []
+    tname = R.show(t)
+    want = R.freeze(R.round_floats(v, t))
+    try:
+        ir = g.IR(uuid=uuid.UUID(int=0x2FFD))
+        m = g.Module(name="m", uuid=uuid.UUID(int=0x2FFC), ir=ir)
+        iv = br.to_impl(v, t, False)
+        ir.aux_data["t"] = g.AuxData(iv, tname)
+        m.aux_data["t"] = g.AuxData(br.to_impl(v, t, False), tname)
+        buf = io.BytesIO()
+        ir.save_protobuf_file(buf)
+        ir2 = g.IR.load_protobuf_file(io.BytesIO(buf.getvalue()))
+        for where, cont in (("ir", ir2), ("module", ir2.modules[0])):
+            errs = []
+            back = Bridge.from_impl(br, cont.aux_data["t"].data, t, errs, False)
+            # (UUIDs of this scratch IR are unattached: plain UUIDs expected)
+            if R.freeze(back) != want:
+                out.append(("C07", "ir-save-load-value:" + where,
+                            "table came back as %r" % (cont.aux_data["t"].data,)))
+        from gtirb.proto import IR_pb2
+
+        pm = IR_pb2.IR()
+        pm.ParseFromString(buf.getvalue()[8:])
+        rb = R.encode(v, t)
+        wb = bytes(pm.aux_data["t"].data)
+        if (wb != rb) if not has_unordered(t) else (
+                len(wb) != len(rb) or sorted(wb) != sorted(rb)):
+            out.append(("C08", "ir-save-bytes",
+                        "file holds %s, format prescribes %s"
+                        % (wb.hex(), rb.hex())))
+    except Exception as e:  # noqa
+        out.append(("C07", "ir-save-load-exception:" + type(e).__name__,
+                    repr(e)[:200]))
+    return out
+
+
 def work(task):
     label, types, k = task
     n = 0
     bad = []
-    for t in types:
+    ir_path = label.startswith("depth<=1")
+    for ti, t in enumerate(types):
+        if ti % 25 == 0:
+            poison()
         for i, v in enumerate(vals(t, k)):
             n += 1
-            for prop, kind, detail in check_case(t, v, i + len(t[1])):
+            try:
+                with common.time_limit(20):
+                    res = check_case(t, v, i + len(t[1]))
+                    if ir_path or ti % 25 == 0:
+                        n += 1
+                        res = res + ir_path_case(t, v, i)
+            except (common.Hang, MemoryError) as e:
+                res = [("C07", "hang-or-unbounded-allocation:"
+                        + type(e).__name__, str(e)),
+                       ("C08", "hang-or-unbounded-allocation:"
+                        + type(e).__name__, str(e))]
+            for prop, kind, detail in res:
                 if len(bad) < 40:
                     bad.append((prop, kind, R.show(t), repr(v)[:200], detail))
     return label, len(types), n, bad
